@@ -69,3 +69,74 @@ func TestV4BinaryPostIsAnswered(t *testing.T) {
 		t.Fatal("no HTTP response to a binary POST on a v4 polling session within 2s (handler stuck)")
 	}
 }
+
+type chunked struct{ r io.Reader }
+
+func (c chunked) Read(p []byte) (int, error) { return c.r.Read(p) }
+
+// C10: a body of undeclared length (chunked) larger than maxHttpBufferSize must not be delivered; 413 is expected.
+func TestChunkedBodyAboveLimitIsRefused(t *testing.T) {
+	opts := config.DefaultServerOptions()
+	opts.SetMaxHttpBufferSize(100)
+	srv, ts := reproServer(t, opts)
+	got := make(chan int, 4)
+	srv.On("connection", func(args ...any) {
+		s := args[0].(Socket)
+		s.On("message", func(m ...any) {
+			if r, ok := m[0].(io.Reader); ok {
+				b, _ := io.ReadAll(r)
+				got <- len(b)
+			}
+		})
+	})
+	sid, _ := reproHandshake(t, ts)
+	payload := "4" + strings.Repeat("x", 5000)
+	req, _ := http.NewRequest("POST", ts.URL+"/engine.io/?EIO=4&transport=polling&sid="+sid, chunked{strings.NewReader(payload)})
+	req.ContentLength = -1 // Transfer-Encoding: chunked
+	resp, err := http.DefaultClient.Do(req)
+	if err != nil {
+		t.Fatal(err)
+	}
+	resp.Body.Close()
+	select {
+	case n := <-got:
+		t.Fatalf("a %d-byte message was delivered although maxHttpBufferSize is 100 (status %d)", n, resp.StatusCode)
+	case <-time.After(300 * time.Millisecond):
+	}
+	if resp.StatusCode != 413 {
+		t.Fatalf("status %d, want 413", resp.StatusCode)
+	}
+}
+
+// sanity (must pass before and after the repairs): an ordinary data request is delivered and acknowledged with "ok".
+func TestOrdinaryPostDelivered(t *testing.T) {
+	srv, ts := reproServer(t, nil)
+	got := make(chan string, 4)
+	srv.On("connection", func(args ...any) {
+		s := args[0].(Socket)
+		s.On("message", func(m ...any) {
+			if r, ok := m[0].(io.Reader); ok {
+				b, _ := io.ReadAll(r)
+				got <- string(b)
+			}
+		})
+	})
+	sid, _ := reproHandshake(t, ts)
+	resp, err := http.Post(ts.URL+"/engine.io/?EIO=4&transport=polling&sid="+sid, "text/plain;charset=UTF-8", strings.NewReader("4hello"))
+	if err != nil {
+		t.Fatal(err)
+	}
+	body, _ := io.ReadAll(resp.Body)
+	resp.Body.Close()
+	if resp.StatusCode != 200 || string(body) != "ok" {
+		t.Fatalf("status %d body %q", resp.StatusCode, body)
+	}
+	select {
+	case m := <-got:
+		if m != "hello" {
+			t.Fatalf("got %q", m)
+		}
+	case <-time.After(time.Second):
+		t.Fatal("message not delivered")
+	}
+}
